@@ -349,6 +349,66 @@ func runC02(c *core.Ctx) {
 		}
 	}
 
+	// unusual but legal values: NotBefore absent or empty (no lower bound - the upper bounds still hold), instants centuries away from the clock
+	c.Group("absent-and-far-away-instants")
+	{
+		type fv struct {
+			name string
+			v    *string // nil = attribute absent
+			ok   bool    // inside the window
+		}
+		ts := func(t time.Time) *string { return samlgen.S(std(t)) }
+		for _, tl := range tols[:2] {
+			nbs := []fv{{"present", ts(now.Add(-time.Minute)), true}, {"absent", nil, true}, {"empty", samlgen.S(""), true}, {"year-0001", samlgen.S("0001-01-01T00:00:00Z"), true}, {"year-1600", samlgen.S("1600-01-01T00:00:00Z"), true}, {"year-9999", samlgen.S("9999-12-31T23:59:59Z"), false}}
+			nooas := []fv{{"in", ts(now.Add(5 * time.Minute)), true}, {"out-1ms", ts(now.Add(-tl.skew - time.Millisecond)), false}, {"year-1600", samlgen.S("1600-01-01T00:00:00Z"), false}, {"year-1700", samlgen.S("1700-06-01T00:00:00Z"), false},
+				{"year-9999", samlgen.S("9999-12-31T23:59:59Z"), true}, {"year-2400", samlgen.S("2400-01-01T00:00:00Z"), true}}
+			iis := []fv{{"now", ts(now), true}, {"year-1066", samlgen.S("1066-10-14T00:00:00Z"), false}, {"year-1500", samlgen.S("1500-01-01T00:00:00Z"), false}, {"year-1677", samlgen.S("1677-09-21T00:12:43Z"), false}, {"year-0001", samlgen.S("0001-01-01T00:00:01Z"), false}}
+			for _, nb := range nbs {
+				for _, nooa := range nooas {
+					for _, scd := range nooas {
+						for _, ii := range iis {
+							if (nb.name == "present") && nooa.name == "in" && scd.name == "in" && ii.name == "now" {
+								continue
+							}
+							if ii.name != "now" && !(nooa.name == "in" && scd.name == "in") {
+								continue
+							}
+							for _, lay := range layouts {
+								tl, nb, nooa, scd, ii, lay := tl, nb, nooa, scd, ii, lay
+								key := fmt.Sprintf("values/tol=%s/notBefore=%s/condNOOA=%s/scdNOOA=%s/issueInstants=%s/lay=%s", tl.name, nb.name, nooa.name, scd.name, ii.name, lay)
+								c.Case(key, func(t *core.T) {
+									t.NonTrivial()
+									saml.MaxIssueDelay, saml.MaxClockSkew = tl.delay, tl.skew
+									resp := samlgen.DefaultResponse()
+									resp.IssueInstant = ii.v
+									a := samlgen.DefaultAssertion()
+									a.IssueInstant = ii.v
+									a.NotBefore, a.NotOnOrAfter = nb.v, nooa.v
+									a.Confirmations[0].NotOnOrAfter = scd.v
+									doc := samlgen.Doc(harness.BuildResponse(resp, []*samlgen.Assertion{a}, lay, idp1(), spKey()))
+									got, err := parseXML(sp, doc, []string{samlgen.ReqID})
+									t.Impl(1)
+									checkAPIContract(t, got, err)
+									v := core.MustAccept
+									if !nb.ok || !nooa.ok || !scd.ok || !ii.ok {
+										v = core.MustReject
+									} else if nb.name == "year-0001" || nb.name == "empty" {
+										v = core.DontCare // the zero instant / an empty attribute as "no lower bound": accepting is fine, refusing a malformed attribute too
+									}
+									t.Outcome(harness.ErrClass(err))
+									judge(t, v, err, "C02/values", key)
+									if t.Failed() {
+										t.Input("response_xml", string(doc))
+									}
+								})
+							}
+						}
+					}
+				}
+			}
+		}
+	}
+
 	// artifact resolution over HTTP with a clock that advances while the SP waits for the IdP: the windows are judged at a reading
 	// taken when the response is there, not before it was fetched
 	c.Group("artifact-clock-advances-during-resolution")
